@@ -1,6 +1,7 @@
 import Hub.Proofs.StoreInv
 import Hub.Proofs.Paging
 import Hub.Proofs.Sorting
+import Hub.Proofs.TxnRefine
 import Hub.Generated.Layout
 /-!
 # C02 — the change feed is the complete ordered version history; tokens resume exactly
@@ -84,6 +85,23 @@ theorem latest_only {db : DB} {S : Spec} (h : Inv db S) (ds : Nat) :
   simp only [emitted, emitOf, Bool.not_true, Bool.false_or, List.filterMap_map, List.filter_map]
   rw [List.filterMap_filter]
   congr 1
+
+/-! ## every reachable state -/
+open Hub.TxnRefine in
+/-- T-C02-5 (every history): from the empty store, after any history of batches and multi-dataset transactions with increasing
+commit times — any length, any datasets, any content — the feed of every dataset read from the start is exactly the accepted
+versions of that history in commit order, and following tokens through any list of page limits, from any `since`, with or
+without latest-only, yields exactly the entries from `since`: nothing skipped, nothing repeated. (The `Inv` hypothesis of
+the theorems above is met by every state the write path reaches.) -/
+theorem feed_reachable (h : List (Nat × List (Nat × List Ent))) (hinc : h.Pairwise (fun a b => a.1 < b.1))
+    (hd : ∀ w ∈ h, (w.2.map (·.1)).Nodup) (ds : Nat) :
+    let db := runTxns h {}
+    (changesPage db ds 0 0 false).1 = ((specTxns h {}).feed ds).filterMap db.get
+    ∧ ∀ (since : Nat) (limits : List Nat) (lo : Bool),
+        let r := pagesG (emitOf db ds lo) (changesOf db ds) since limits
+        r.1.flatten ++ (changesPage db ds r.2 0 lo).1 = (changesPage db ds since 0 lo).1 := by
+  have hI : Inv (runTxns h {}) (specTxns h {}) := txns_refine h {} {} inv_empty (by intro v hv; simp at hv) hinc hd
+  exact ⟨feed_eq_versions hI ds, fun since limits lo => resume_exact hI ds since limits lo⟩
 
 /-! ## tie to the Go source (regenerated facts) -/
 open Hub.Facts.Layout in
